@@ -138,6 +138,17 @@ Proof. intros H. rewrite ProofsLeaf.find_app, H. reflexivity. Qed.
 Lemma frame_look s s' m : frame s s' -> look_of s' m = look_of s m.
 Proof. intros [_ [_ [_ [_ [E _]]]]]. now apply look_of_mts. Qed.
 
+Lemma settle_id c y : mt_id (mt_settle c y) = mt_id y /\ mt_ents (mt_settle c y) = mt_ents y.
+Proof. unfold mt_settle. destruct ((mt_store y =? 0) && (negb (cf_iter_owns c) || (mt_iters y =? 0))); split; reflexivity. Qed.
+Lemma drop_store_id c y : mt_id (mt_drop_store c y) = mt_id y.
+Proof. unfold mt_drop_store. now rewrite (proj1 (settle_id c _)). Qed.
+Lemma drop_store_ents c y : mt_ents (mt_drop_store c y) = mt_ents y.
+Proof. unfold mt_drop_store. now rewrite (proj2 (settle_id c _)). Qed.
+Lemma drop_iter_id c y : mt_id (mt_drop_iter c y) = mt_id y.
+Proof. unfold mt_drop_iter. now rewrite (proj1 (settle_id c _)). Qed.
+Lemma drop_iter_ents c y : mt_ents (mt_drop_iter c y) = mt_ents y.
+Proof. unfold mt_drop_iter. now rewrite (proj2 (settle_id c _)). Qed.
+
 Section Look.
 Variable c : cfg.
 
